@@ -1,5 +1,7 @@
 """C15 — copy() and archive() produce faithful, independent replicas."""
 import ast
+from ..pathcond import inline, canon, find_defs, runs_under, reach_under
+from . import _trunc
 
 from ..rules import must_precede, must_follow
 from ..cfg import cfg_of, always_raises
@@ -60,8 +62,14 @@ def run(ctx):
     _fresh_metadata(ctx, f, c, 'D4')
     # dtype reaches every producer of the chunk generator (Array branch included)
     ys = [n for n in own_nodes(gen.node) if isinstance(n, ast.Yield)]
-    arr_branch = [y for y in ys if any(isinstance(p, ast.If) and 'isinstance(array, Array)' in norm(p.test) and fld == 'body'
-                                       for p, fld in enclosing(gen.node, y))]
+    src = gen.params[0]
+    # dispatch branches are selected by path-condition evaluation, not by the layout of the if/elif chain
+    ARR = {f"hasattr({src}, '__next__')": False, f'isinstance({src}, Array)': True}
+    SEQ = {f"hasattr({src}, '__next__')": False, f'isinstance({src}, Array)': False,
+           f"hasattr({src}, '__len__')": True, f"hasattr({src}, 'keys')": False}
+    g_ = cfg_of(gen)
+    may_arr = reach_under(gen, _trunc.folder(ARR, gen))
+    arr_branch = [y for y in ys if g_.node_for(y) in may_arr]
     ctx.floor('C15 producers on the Array branch', len(arr_branch), 2)
     for y in arr_branch:
         v = y.value
@@ -70,17 +78,21 @@ def run(ctx):
         ctx.decide(ok, 'R-SIB', 'D1', gen, y, f'array-branch-producer::{norm(v)[:30]}',
                    'the Array branch of the chunk generator converts with the requested dtype',
                    detail='copy(dtype=X) silently keeps the source dtype')
-    # D3: empty Array source handled on the Array branch
-    handled = False
-    for n in own_nodes(gen.node):
-        if isinstance(n, ast.If) and any(isinstance(p, ast.If) and 'isinstance(array, Array)' in norm(p.test) for p, _ in enclosing(gen.node, n)):
-            if 'len(array) == 0' in norm(n.test) or 'array.shape[0] == 0' in norm(n.test) or 'len(array) > 0' in norm(n.test):
-                handled = True
+    # D3: a source of length 0 reaches a producer and never the frame machinery, on both branches
+    def empty_ok(base, frame_call_pred):
+        env = dict(base)
+        for k in (f'len({src})', f'{src}.shape[0]'):
+            env[k] = 0
+        ft = _trunc.folder(env, gen)
+        may = reach_under(gen, ft)
+        frames = [n for n in own_nodes(gen.node) if isinstance(n, ast.Call) and frame_call_pred(n)]
+        return any(g_.node_for(y) in may for y in ys) and not any(g_.node_for(n) in may for n in frames) and bool(frames)
+    handled = empty_ok(ARR, lambda n: isinstance(n.func, ast.Attribute) and n.func.attr in ('iterchunks', 'iterindices'))
     ctx.decide(handled, 'R-BELIEF', 'D3', gen, None, 'empty-array-source',
                'the Array branch of the chunk generator handles a source of length 0 (its sequence sibling does, and '
                'iterchunks rejects startindex >= endindex)',
                detail='copying an Array whose first axis has length 0 raises ValueError')
-    seq_empty = any(isinstance(n, ast.If) and norm(n.test) in ('totallen == 0', 'len(array) == 0') for n in own_nodes(gen.node))
+    seq_empty = empty_ok(SEQ, lambda n: dotted(n.func) in ('fit_frames', 'utils.fit_frames'))
     ctx.decide(seq_empty, 'R-BELIEF', 'D3', gen, None, 'empty-sequence-source', 'the sequence branch handles length 0', detail='missing')
     # D2
     g = RA.methods['copy']
@@ -119,9 +131,11 @@ def run(ctx):
     if empties:
         for n, cal in ctx.E.callees(g):
             if cal is cr and isinstance(n, ast.Call):
-                for nm, want in (('path', 'path'), ('dtype', 'dtype'), ('metadata', 'metadata'), ('overwrite', 'overwrite'), ('atom', 'self.atom')):
+                # the empty copy receives what its non-empty sibling (the asraggedarray call) receives; locals inlined
+                for nm in ('path', 'dtype', 'metadata', 'overwrite', 'atom'):
                     a = get_arg(n, None, nm)
-                    ctx.decide(a is not None and norm(a) == want, 'R-FLOW', 'D3', g, n, f'empty-copy-forward::{nm}',
+                    want = 'self.atom' if nm == 'atom' else canon(g, get_arg(c, None, nm))
+                    ctx.decide(a is not None and canon(g, a) == want, 'R-FLOW', 'D3', g, n, f'empty-copy-forward::{nm}',
                                f'the empty copy receives {nm}={want}', detail=f'{nm}={norm(a) if a is not None else "<absent>"}')
     # asraggedarray: first item consumed/validated before the first effect, StopIteration handled
     nx = [n for n in own_nodes(asragged.node) if isinstance(n, ast.Call) and dotted(n.func) == 'next']
